@@ -7,6 +7,11 @@ def T(qcases, tcases, qbudget=240, tbudget=1500, workers=16):
             "thorough": dict(cases=tcases, budget_s=tbudget, workers=workers)}
 
 PROPS = {
+    "C16": dict(sources=["props/C16.cpp"], jls=True, enumerate=True, tiers=T(150, 6000),
+                assumptions=["'multiple of 256 bits' is asserted for power-of-two widths; for 24-bit samples only byte alignment (256/24 is not integral; the format relies on byte alignment)",
+                             "definitions with all four fields <= 1000 must be accepted (they are documented as write suggestions)",
+                             "24-bit types have no default table in this commit: zero fields there are only held to the minimums",
+                             "SMT over the full 2^128 domain is not attempted (different technique family); sampled instead"]),
     "C08": dict(sources=["props/C08.cpp"], jls=True, enumerate=True, tiers=T(3000, 40000),
                 assumptions=["'genuinely does not fit' is read as: no contiguous free region of size+4 bytes; the implementation's 8 bytes of marker/disambiguation slack are accepted either way (must succeed with size+12 free)",
                              "usable capacity after emptying = capacity-12"]),
@@ -21,6 +26,10 @@ PROPS = {
 HOOK_COMMITS = []
 
 MANIFEST_TEXT = {
+    "C16": dict(
+        technique="property-based testing through the public API (define, read back, re-define) with relational/metamorphic oracles; complete enumeration of a small grid",
+        level_text="Complete for the grid {0,1,9,10,11,16,100,1000}^4 x 15 data types; boundary-biased 32-bit values (2^k, 2^k+-1, near multiples, UINT32_MAX-0..300, random) are sampled. Checked: divisibility relations, minimums, no wrap-around of rounded-up fields, idempotence via re-submission, zero == explicit per-width default, survival (SIGFPE = violation).",
+        level_note="Trusted: the pinned per-width default table and the reading of the 256-bit clause for 24-bit types (stated in evidence assumptions). The full 32-bit domain is sampled, not covered."),
     "C08": dict(
         technique="model-based property testing (deque + interval model) on generated alloc/peek/pop sequences, plus complete BFS of the reachable state space for small capacities",
         level_text="BFS enumerates every reachable (library struct, buffer bytes, model queue) state for capacities 8..20 (quick) / 8..28 (thorough) and applies every operation incl. every size 0..cap+1 from each; generated sequences cover capacities up to 64 KiB with sizes within 16 bytes of the capacity and of the remaining space. FIFO order/size/bytes, region inside the exact-size ASan heap buffer, no overlap with unpopped messages, refusal only without size+4 contiguous bytes, success with size+12, cap-12 allocatable after emptying, count.",
